@@ -17,12 +17,21 @@ CHECKS = {
  "C05": ("model_checking", "exhaustive enumeration of the sentences of the grammar up to a size bound (every AST x every combination of documented syntactic variants) against the AST the sentence denotes; single-field corruptions must be rejected",
          "parse(sentence) must be == the generating AST for every rendering of every AST of the family by an independent printer (13 variant switches, full product on the relevant ones); negative family from the statement's list must be Err.",
          "Trusts the engine's printer/variant table as the definition of 'documented relaxations' (transcribed from grammar.pest comments); strings outside it are not judged.", "DESIGN.md §3 C05"),
+ "C06": ("model_checking", "bounded exhaustive enumeration of parsed expressions and their normal forms through the real Display -> real parser round trip, with AST equality or else a differential evaluation by the real schedule_at over the window",
+         "Every expression of the family (and its normal form) is printed and reparsed; equality of ASTs (modulo joined comments) or identical ranges/kinds/comment sets on every day of the window in every context.",
+         "AST equality implies equal evaluation; the evaluation comparison is bounded by the window. Python str/repr is covered through the C12 driver.", "DESIGN.md §3 C06"),
+ "C07": ("model_checking", "bounded exhaustive enumeration of the normalisation family (canonical x non-canonical rules, all kinds/operators) with a differential oracle: real schedule_at of e vs of normalize(e) on every day of the window",
+         "Both sides are the real code; every expression of N, E2, E1 and the corpus is compared on every day of the window in two calendar contexts.",
+         "Bounded by the family and the window. One open known finding (closed rule dropped before a spilling rule).", "DESIGN.md §3 C07"),
  "C08": ("model_checking", "exhaustive enumeration of the boundary expression family x a 17-instant alphabet (around and far outside both ends of 1900..9999) x all ordered instant pairs as iteration windows, on the real code against the statement and the pointwise oracle P",
          "Every (expression, instant) and every (expression, from, to) combination of the boundary family is executed; closedness outside the range, window containment of every interval, next_change never at/after 10000-01-01 and its value from before 1900 are checked literally.",
          "P uses the real schedule_at over all 2 958 466 days. NaiveDateTime::MAX itself is left to C04.", "DESIGN.md §3 C08"),
  "C10": ("model_checking", "complete enumeration of country x kind x date (1990..2085) on the real decoded calendars against an independent reader of the source text files; all [A-Za-z]{0,3} codes; PH/SH selectors through the real evaluator",
          "Exhaustive over a finite domain that strictly contains the data (1999..2075): every country, both calendars, every date, every short code string. Decides the property for the embedded data as built from the working tree.",
          "Trusts the source text files as ground truth, chrono date arithmetic, and flate2/LazyLock as used by the crate.", "DESIGN.md §3 C10"),
+ "C13": ("model_checking", "bounded exhaustive enumeration of the normalisation family on the real normalize(): idempotence, determinism across clones/reparses/equal spellings, and printability of the normal form",
+         "normalize(normalize(e)) == normalize(e) by AST equality for every expression of N, E2, E1 and the corpus; equal ASTs reached through different spellings normalise equally; the normal form round-trips by C06's criterion.",
+         "Bounded by the family.", "DESIGN.md §3 C13"),
  "C14": ("model_checking", "explicit-state breadth-first exploration of the real Schedule (from_ranges/addition histories over a time grid, from initial and non-initial states) against a per-cell overlay model",
          "Every reachable state up to the depth bound over the grid is visited and checked (structure, covered set, tiling, kinds). Exhaustive within grid x depth; arbitrary minute values outside the grid are represented by the grid's order types (equal, adjacent, nested, overlapping, disjoint).",
          "Trusts that Debug of Schedule renders its whole state (used for dedup); model is 30 lines of per-cell overlay.", "DESIGN.md §3 C14"),
